@@ -144,3 +144,10 @@ PROPS["C31"] = dict(explanation="Bounded symbolic execution of the real CandleDu
     bounds=["duration strings: quick 1Sec,1Min,5Min,1H,1D,1W,1M,4H,2W,1Y (windows) and all 25 (strings); thorough 25 strings incl. 90Sec, 90Min, 5D, 2M, 2Y", "7 calendar days of 2020 and 2021 (thorough 12 days of 2020 and 2021), every nanosecond of the day", "zones UTC and fixed UTC-5"],
     outside=["days other than the listed calendar edges", "zones with daylight-saving transitions", "known finding regions: week windows outside UTC or longer than one week; durations that are not a whole number of their largest unit (90Sec, 90Min) print truncated"],
     stubs=["time.Time bit packing: semantic model (see C10)", "Time.Truncate: semantic model (instant minus its remainder modulo d, counted from year 1)", "regexp on concrete strings: native call-out"], assumptions=COMMON_ASSUME)
+
+
+PROPS["C27"] = dict(explanation="Bounded symbolic execution of the real NewNumpyDataset (CastToByteSlice executed from its own code through a slice-header view), NewNumpyMultiDataset, NumpyMultiDataset.Append, ToColumnSeriesMap, NumpyDataset.ToColumnSeries, buildDataShapes, EnumElementType.ConvertByteSliceInto and the type-string tables on 1..3 buckets that share a schema; the buckets' columns are windows of one batch array per column (with spare capacity), packed in memory order or with the last two swapped. msgpack encode/decode is modelled as a copy of the exported tagged fields (the hidden dataShapes field is lost), so the library itself is trusted. Oracle: same buckets, column names and order, Go types and values; the caller's arrays are unchanged.",
+    runs=[dict(pkg="utils/io", files=["c27_wire.go"], entries=["VerifC27RoundTrip"], must_reach=["entered", "decoded"], opts=dict(timeout=30))],
+    bounds=["1..3 buckets, 0..2 rows each, schema Epoch + one value column of int32, float32 or uint16", "all values symbolic"],
+    outside=["the msgpack library (field copy stands for encode+decode)", "other wire types (the type table is exercised by name only for i4/f4/u2/i8)", "known finding region: datasets containing a zero-length bucket"],
+    stubs=["reflect: engine mini-reflect", "msgpack: field copy"], assumptions=COMMON_ASSUME)
